@@ -23,16 +23,14 @@ def parse_amount(amount_str, decimal_separator='.'):
     Returns:
         Float value of the amount
     """
-    amount_str = amount_str.strip()
+    # Remove currency symbols, wherever they stand: $100.00, ($100.00), $(100.00), (100,00) €
+    amount_str = re.sub(r'[$€£¥]', '', amount_str).strip()
 
     # Handle parentheses notation for negative: (100.00) -> -100.00
     negative = False
     if amount_str.startswith('(') and amount_str.endswith(')'):
         negative = True
-        amount_str = amount_str[1:-1]
-
-    # Remove currency symbols
-    amount_str = re.sub(r'[$€£¥]', '', amount_str).strip()
+        amount_str = amount_str[1:-1].strip()
 
     if decimal_separator == ',':
         # European format: 1.234,56 or 1 234,56
